@@ -123,6 +123,37 @@ pub const INJECTORS: &[Inj] = &[
         },
     },
     Inj {
+        // a form so large that the merged query cannot be a request target: a query-string defect (400), never a 500
+        name: "body-oversize-form",
+        stage: Stage::Query,
+        apply: |b, r| {
+            if !b.cfg.fold {
+                return false;
+            }
+            b.ov.content_type_override = Some(FORM.to_vec());
+            let body: Vec<u8> = match r.below(3) {
+                0 => {
+                    let mut v = b"a=".to_vec();
+                    v.extend(std::iter::repeat(b'x').take(66_000));
+                    v
+                }
+                1 => {
+                    let mut v = b"big=".to_vec();
+                    v.extend(std::iter::repeat(b'y').take(131_000));
+                    v
+                }
+                _ => {
+                    // short on the wire, long once encoded
+                    let mut v = b"s=".to_vec();
+                    v.extend(std::iter::repeat(b'/').take(22_500));
+                    v
+                }
+            };
+            b.ov.body_override = Some(body);
+            true
+        },
+    },
+    Inj {
         name: "no-carrier",
         stage: Stage::Carrier,
         apply: |b, _| {
@@ -444,11 +475,17 @@ pub const INJECTORS: &[Inj] = &[
 
 pub fn gen_errspec(r: &mut Rng) -> ErrSpec {
     let nonce = format!("provider-said-{:08x}", r.next_u64() as u32);
-    match r.below(8) {
+    match r.below(13) {
         0 => ErrSpec::Str(nonce),
         1 => ErrSpec::Custom(nonce),
         2 => ErrSpec::Io(nonce),
         3 => ErrSpec::Nested(nonce),
+        4 => ErrSpec::NestedSig(Kind::from_index(r.below(12) as u8), nonce),
+        5 => ErrSpec::WrappedSig(Kind::from_index(r.below(12) as u8), nonce),
+        6 => ErrSpec::KeyTooLong,
+        7 => ErrSpec::SigNone,
+        8 => ErrSpec::IoKind(r.below(13) as u8, nonce),
+        9 => ErrSpec::Sig(Kind::from_index(r.below(12) as u8), String::new()),
         _ => ErrSpec::Sig(Kind::from_index(r.below(12) as u8), nonce),
     }
 }
